@@ -651,8 +651,43 @@ def r7_no_paths_in_output(ctx, res):
             res.ok(rid, name, g.entry.get("parser_file_rel"))
 
 
+def r8_order_sensitive_setters(F, res):
+    """`the same through CLI and API`: the CLI applies its options in ONE fixed order; the API in whatever order the caller
+    writes. A setter that also overwrites fields other setters own makes the outcome depend on that order, and the CLI's
+    fixed order then silently discards what the user gave (`rcomp -p glr --prefer-shifts`, `-p glr -t lalr`) (D43)."""
+    rid = res.rule("C17-R8", "no Settings setter overwrites a field that another setter owns (the builder API is order-independent, so "
+                   "the CLI's fixed order of calls cannot discard an option)", floor=1)
+    setters = {}
+    for path, f in F.fns.items():
+        if f.crate != "rustemo_compiler" or not f.has_body() or "::settings::Settings::" not in path or "{closure" in path:
+            continue
+        name = path.rsplit("::", 1)[-1]
+        stored = set()
+        for _, _, st in f.stmts():
+            d = st.get("dst") if st.get("k") == "assign" else None
+            if d and d.get("proj"):
+                for pr in d["proj"]:
+                    if pr.get("k") == "field" and str(pr.get("adt", "")).endswith("settings::Settings"):
+                        stored.add(pr.get("name"))
+        if stored:
+            setters[name] = stored
+    own = {n: {n} & fs for n, fs in setters.items()}
+    bad = {n: sorted(fs - {n}) for n, fs in setters.items() if n in fs and (fs - {n}) and any(x in setters for x in (fs - {n}))}
+    if not setters:
+        res.anchor_lost(rid, "no Settings setter with a field store found")
+    elif bad:
+        n = sorted(bad)[0]
+        res.violation(rid, "setter-overwrites/" + n, "Settings::%s also overwrites %s, which have setters of their own: the outcome "
+                      "depends on the order of calls; rcomp calls it after them, so `-p glr --prefer-shifts` and `-p glr -t lalr` are "
+                      "silently the same as `-p glr`, while the API honours them when called afterwards" % (n, bad[n]),
+                      "rustemo-compiler/src/settings.rs")
+    else:
+        res.ok(rid, "setter-overwrites", None, "%d setters, each stores its own field only" % len(setters))
+
+
 def run(ctx, res):
     F = ctx.facts("core")
+    r8_order_sensitive_setters(F, res)
     fns = fns_of(F)
     n_lookup = r1_hash_order(F, res, fns)
     r2_ambient(F, res, fns)
